@@ -1438,7 +1438,9 @@ func runARGPOS(c *Ctx, r *Result, rule string) int {
 	}
 	n := 0
 	for _, f := range c.G.Funcs {
-		if f.Pkg == nil || f.Pkg != mk.Pkg || f.Name() != "validateArgTypes" || len(f.Blocks) == 0 {
+		// the functions that check an argument list against a signature: they take the list
+		// ([]reflect.Value) and report a position that is computed, not a constant
+		if f.Pkg == nil || f.Pkg != mk.Pkg || len(f.Blocks) == 0 {
 			continue
 		}
 		var argv *ssa.Parameter
@@ -1447,9 +1449,15 @@ func runARGPOS(c *Ctx, r *Result, rule string) int {
 				argv = p
 			}
 		}
+		if argv == nil {
+			continue
+		}
 		ord := 0
 		for _, ci := range callsIn(f) {
 			if ci.Common().StaticCallee() != mk || len(ci.Common().Args) < 2 {
+				continue
+			}
+			if _, isConst := ci.Common().Args[1].(*ssa.Const); isConst {
 				continue
 			}
 			ord++
@@ -2219,6 +2227,7 @@ func runRANGE12(c *Ctx, r *Result, rule string) int {
 	}
 	// the function the 12-hour case calls
 	var f12 *ssa.Function
+	var f12Assume map[ssa.Value]bool
 	for _, b := range exp.Blocks {
 		ks, ok := caseConstsOf(b, func(v ssa.Value) bool { return true })
 		if !ok {
@@ -2237,6 +2246,7 @@ func runRANGE12(c *Ctx, r *Result, rule string) int {
 			if call, ok := ins.(*ssa.Call); ok {
 				if g := call.Call.StaticCallee(); g != nil && g.Pkg == exp.Pkg {
 					f12 = g
+					f12Assume = constBoolArgs(call, g)
 				}
 			}
 		}
@@ -2253,13 +2263,20 @@ func runRANGE12(c *Ctx, r *Result, rule string) int {
 			if !ok || call.Call.StaticCallee() != fmtInt || len(call.Call.Args) < 1 {
 				continue
 			}
+			// a call that lies behind a branch the assumed flag rules out is not the 12-hour path
+			dead := false
+			for pv, val := range assume {
+				pv, val := pv, val
+				if domGuard(call.Block(), func(cond ssa.Value) (int, bool) { return boolEdge(cond, pv, !val) }) {
+					dead = true
+				}
+			}
+			if dead {
+				continue
+			}
 			n++
 			o := Obligation{Rule: rule, Key: fmt.Sprintf("%s:hour12#%d", shortFn(f), n), Fn: shortFn(f), Pos: c.W.Pos(call.Pos()), Nontrivial: true}
-			p := newBndProver(c, call, 0)
-			p.assume = assume
-			x := bnorm(call.Call.Args[0])
-			lo := p.prove(blin{c: 1}, x)
-			hi := p.prove(x, blin{c: 12})
+			lo, hi := range12(c, call, call.Call.Args[0], assume, 0)
 			switch {
 			case lo && hi:
 				o.Verdict, o.Reason = Discharged, "the hour handed to the integer formatter for [h] is shown to lie in 1..12"
@@ -2271,23 +2288,64 @@ func runRANGE12(c *Ctx, r *Result, rule string) int {
 			r.Add(o)
 		}
 	}
-	check(f12, nil)
+	check(f12, f12Assume)
 	for _, ci := range callsIn(f12) {
 		g := ci.Common().StaticCallee()
 		if g == nil || g.Pkg != f12.Pkg || g == fmtInt || len(g.Blocks) == 0 {
 			continue
 		}
-		assume := map[ssa.Value]bool{}
-		for i, a := range ci.Common().Args {
-			if k, ok := a.(*ssa.Const); ok && k.Value != nil && k.Value.Kind() == constant.Bool && i < len(g.Params) {
-				assume[g.Params[i]] = constant.BoolVal(k.Value)
-			}
-		}
-		if len(assume) > 0 {
+		if assume := constBoolArgs(ci, g); len(assume) > 0 {
 			check(g, assume)
 		}
 	}
 	return n
+}
+
+// constBoolArgs: the parameters of g that this call binds to boolean constants.
+func constBoolArgs(ci ssa.CallInstruction, g *ssa.Function) map[ssa.Value]bool {
+	assume := map[ssa.Value]bool{}
+	for i, a := range ci.Common().Args {
+		if k, ok := a.(*ssa.Const); ok && k.Value != nil && k.Value.Kind() == constant.Bool && i < len(g.Params) {
+			assume[g.Params[i]] = constant.BoolVal(k.Value)
+		}
+	}
+	return assume
+}
+
+// range12: v, used at instruction at, lies in [1, 12]: shown by the interval prover at the use,
+// or — when v is the result of a function of the package — for the value of every return of that
+// function (whose parameters get the ranges their call sites establish).
+func range12(c *Ctx, at ssa.Instruction, v ssa.Value, assume map[ssa.Value]bool, depth int) (lo, hi bool) {
+	p := newBndProver(c, at, 0)
+	p.assume = assume
+	x := bnorm(v)
+	lo = p.prove(blin{c: 1}, x)
+	hi = p.prove(x, blin{c: 12})
+	if lo && hi {
+		return
+	}
+	call, ok := v.(*ssa.Call)
+	if !ok || depth >= 2 {
+		return
+	}
+	g := call.Call.StaticCallee()
+	if g == nil || g.Pkg != at.Parent().Pkg || len(g.Blocks) == 0 || g.Signature.Results().Len() != 1 {
+		return
+	}
+	allLo, allHi, n := true, true, 0
+	for _, b := range g.Blocks {
+		ret, isRet := b.Instrs[len(b.Instrs)-1].(*ssa.Return)
+		if !isRet {
+			continue
+		}
+		n++
+		l, h := range12(c, ret, ret.Results[0], constBoolArgs(call, g), depth+1)
+		allLo, allHi = allLo && l, allHi && h
+	}
+	if n == 0 {
+		return
+	}
+	return lo || allLo, hi || allHi
 }
 
 // ---------------------------------------------------------------------------------------
@@ -2379,8 +2437,8 @@ func runCLOSURE(c *Ctx, r *Result, rule string) int {
 			k := nt.Obj().Name() + "." + strings.TrimPrefix(what, "field ")
 			ord[k]++
 			o := Obligation{Rule: rule, Key: fmt.Sprintf("%s:%s#%d", shortFn(f), k, ord[k]), Fn: shortFn(f), Pos: c.W.Pos(st.Pos()), Nontrivial: true}
-			if _, fresh := obj.(*ssa.Alloc); fresh {
-				o.Verdict, o.Reason = Discharged, "store into "+what+" of a "+nt.Obj().Name()+" that this function has just allocated (construction or private copy)"
+			if alwaysFreshAlloc(obj, 0) {
+				o.Verdict, o.Reason = Discharged, "store into "+what+" of a "+nt.Obj().Name()+" that this function has just allocated, itself or through a constructor whose every return is a new allocation (construction or private copy)"
 			} else if closureInitParam(c, f, obj) {
 				o.Verdict, o.Reason = Discharged, "store into "+what+" of a "+nt.Obj().Name()+" handed in by callers that have all just allocated it (an initialiser called from the constructing functions only)"
 			} else {
@@ -2678,6 +2736,42 @@ func runRANGECAP(c *Ctx, r *Result, rule string, fns []*ssa.Function) int {
 							p := newBndProver(c, x, 0)
 							if !p.prove(bnorm(a), blin{c: K}) {
 								jobs = append(jobs, job{g, g.Params[i], j.from, j.d + 1})
+							}
+						}
+					}
+				}
+			case *ssa.Return:
+				for ri, rv := range x.Results {
+					if !derived[rv] {
+						continue
+					}
+					// capped before it is handed back: the callers may rely on it; otherwise the
+					// callers' uses of the result are judged
+					pr := newBndProver(c, x, 0)
+					if pr.prove(bnorm(rv), blin{c: K}) {
+						check(x, rv, "result handed back to the callers")
+						continue
+					}
+					if j.d >= 2 {
+						continue
+					}
+					sites, ok := c.staticCallers(j.f)
+					if !ok {
+						check(x, rv, "result handed to callers that are not all known")
+						continue
+					}
+					for _, cs := range sites {
+						cv, isVal := cs.(*ssa.Call)
+						if !isVal {
+							continue
+						}
+						if len(x.Results) == 1 {
+							jobs = append(jobs, job{cs.Parent(), cv, j.from, j.d + 1})
+							continue
+						}
+						for _, rf := range *cv.Referrers() {
+							if e, isEx := rf.(*ssa.Extract); isEx && e.Index == ri {
+								jobs = append(jobs, job{cs.Parent(), e, j.from, j.d + 1})
 							}
 						}
 					}
@@ -3341,4 +3435,114 @@ func runWSDEF(c *Ctx, r *Result, rule string) int {
 		r.Add(o)
 	}
 	return len(defs)
+}
+
+// ---------------------------------------------------------------------------------------
+// OKUSE (C09): the value of a comma-ok helper is used only where ok was tested.
+//
+// The module's As… helpers return (value, ok); those whose value is an interface or a pointer
+// return (nil, false) on their failure path. A caller that drops ok, or uses the value on a path
+// on which ok was not tested true, calls a method on nil sooner or later (the composed function
+// of `f ~> g` built from a nil Callable). A test of the sibling predicate (Is…) is not accepted in
+// place of ok: the two are separate functions and need not agree (IsCallable is true for a
+// callable struct copied by value, AsCallable is not).
+// ---------------------------------------------------------------------------------------
+
+func runOKUSE(c *Ctx, r *Result, rule string, fns []*ssa.Function) int {
+	// helpers: module functions with results (T, bool), T nilable, with a return of (nil, …)
+	isHelper := map[*ssa.Function]bool{}
+	for _, g := range c.G.Funcs {
+		if g.Pkg == nil || len(g.Blocks) == 0 || g.Synthetic != "" {
+			continue
+		}
+		res := g.Signature.Results()
+		if res.Len() != 2 {
+			continue
+		}
+		if b, ok := res.At(1).Type().Underlying().(*types.Basic); !ok || b.Kind() != types.Bool {
+			continue
+		}
+		switch res.At(0).Type().Underlying().(type) {
+		case *types.Interface, *types.Pointer:
+		default:
+			continue
+		}
+		for _, b := range g.Blocks {
+			if ret, ok := b.Instrs[len(b.Instrs)-1].(*ssa.Return); ok && len(ret.Results) == 2 && isNilConst(ret.Results[0]) {
+				isHelper[g] = true
+			}
+		}
+	}
+	n := 0
+	for _, f := range fns {
+		ord := map[string]int{}
+		for _, ci := range callsIn(f) {
+			g := ci.Common().StaticCallee()
+			call, isCall := ci.(*ssa.Call)
+			if g == nil || !isHelper[g] || !isCall {
+				continue
+			}
+			var val, okv ssa.Value
+			for _, rf := range *call.Referrers() {
+				if e, isEx := rf.(*ssa.Extract); isEx {
+					if e.Index == 0 {
+						val = e
+					} else {
+						okv = e
+					}
+				}
+			}
+			if val == nil {
+				continue
+			}
+			ord[shortFn(g)]++
+			n++
+			o := Obligation{Rule: rule, Key: fmt.Sprintf("%s:%s#%d", shortFn(f), shortFn(g), ord[shortFn(g)]), Fn: shortFn(f), Pos: c.W.Pos(call.Pos()), Nontrivial: true}
+			bad := ""
+			for _, rf := range *val.Referrers() {
+				if _, isDbg := rf.(*ssa.DebugRef); isDbg {
+					continue
+				}
+				if bo, isBo := rf.(*ssa.BinOp); isBo && (isNilConst(bo.X) || isNilConst(bo.Y)) {
+					continue // compared with nil
+				}
+				if okv == nil {
+					bad = "the ok result is dropped and the value is used at " + c.W.Pos(rf.Pos())
+					break
+				}
+				if ret, isRet := rf.(*ssa.Return); isRet {
+					// handing (value, ok) on together is the caller's business
+					both := false
+					for _, x := range ret.Results {
+						if x == okv {
+							both = true
+						}
+					}
+					if both {
+						continue
+					}
+				}
+				blk := rf.Block()
+				if phi, isPhi := rf.(*ssa.Phi); isPhi {
+					// the use is on the incoming edge
+					for i, e := range phi.Edges {
+						if e == val {
+							blk = phi.Block().Preds[i]
+						}
+					}
+				}
+				if !domGuard(blk, func(cond ssa.Value) (int, bool) { return boolEdge(cond, okv, true) }) {
+					bad = "the value is used at " + c.W.Pos(rf.Pos()) + " on a path on which ok was not tested true"
+					break
+				}
+			}
+			if bad == "" {
+				o.Verdict, o.Reason = Discharged, "every use of the value of "+shortFn(g)+" is behind a test of its ok result"
+			} else {
+				o.Verdict, o.Reason = Finding, shortFn(g)+" returns (nil, false) when it fails, and "+bad+": a nil "+types.TypeString(g.Signature.Results().At(0).Type(), func(p *types.Package) string { return p.Name() })+" is called or stored (a test of the Is… predicate is not a test of ok)"
+			}
+			r.Add(o)
+		}
+	}
+	return n
 }
